@@ -570,8 +570,11 @@ def c15f(chk):
                 false_t = an.edge_target(st, 0)
                 true_t = st["otherwise"]
                 dom = an.dominated_by_edge(f, sb, false_t, rd[0][0])
-                r = an.arm_region(f, sb, true_t)
-                errs = any(x["k"] == "assign" and x["rv"]["k"] == "aggregate" and x["rv"].get("variant") == "Err" and P(x["place"])[0] == 0 for b in r for x in f.stmts(b))
+                # what can follow the true edge (an Err built in a helper and handed on with `?` included: edges that would need the
+                # Ok variant are not paths from here)
+                r = an.reachable_with_edges_removed(f, true_t, set(), an.infeasible_edges_from(f, true_t, None))
+                rets_ = (f.raw.get("inlined_ret") or []) + [0]
+                errs = any(x["k"] == "assign" and x["rv"]["k"] == "aggregate" and x["rv"].get("variant") == "Err" and P(x["place"])[0] in rets_ for b in r for x in f.stmts(b))
                 reads = any(callee_is(f.term(b)["callee"], TD_READ, "sfs_core::array::Array::<T>::new") for b in r if f.term(b)["k"] == "call")
                 ok = dom and errs and not reads
                 why = "values read only on fortran_order == false: %s; true edge returns Err: %s" % (dom, errs and not reads)
@@ -1641,6 +1644,16 @@ def c18a(chk):
                 counts[cp] = counts.get(cp, 0) + 1
                 chk.saw_calls()
                 if cp in SHORT_COUNT or cp not in LOOPING_IO:
+                    # a forwarding impl (`impl Write for Sink { fn write(&mut self, buf) -> io::Result<usize> { self.inner.write(buf) } }`) hands
+                    # the count on to its own caller: it is that caller's loop (write_all) which completes the transfer
+                    meth = cp.split("::")[-1]
+                    m_ = re.match(r"^<(sfs(_core)?::[\w:]+)(<.*>)? as std::io::(Read|Write|BufRead)>::(\w+)$", f.path)
+                    if m_ and m_.group(5) == meth and an.call_dest_local(t) == 0:
+                        chk.ob("C18.a", "forwarding-io/%s@%s" % (meth, f.path), True, f.loc(b), "the impl of %s forwards to the inner %s and returns its result unchanged" % (meth, meth), nontrivial=False)
+                        counts[cp] -= 1
+                        if not counts[cp]:
+                            del counts[cp]
+                        continue
                     chk.ob("C18.a", "short-count-io/%s@%s" % (cp.split("::")[-1], f.path), False, f.loc(b),
                            "`%s` transfers an unspecified number of bytes per call (or is not on the reviewed loop-until-done list); results would depend on chunking" % cp)
     for cp in sorted(counts):
